@@ -32,7 +32,7 @@ def find_omega_general(g_w, twoth, w_x, w_y):
     r_mat = np.dot(w_mat_x,w_mat_y)
 
     a = g_w_n[0]*r_mat[0][0] + g_w_n[1]*r_mat[0][1] 
-    b = g_w_n[0]*r_mat[1][0] - g_w_n[1]*r_mat[0][0] 
+    b = g_w_n[0]*r_mat[0][1] - g_w_n[1]*r_mat[0][0] 
     c = - np.dot(g_w_n, g_w_n) - g_w_n[2]*r_mat[0][2] 
     d = a*a + b*b - c*c
 
